@@ -370,6 +370,31 @@ def search(ctx):
                 bad += not ctx.is_known(key)
                 ctx.fail(key, f"{type(sysm).__name__}: after re-assigning system.metric, sample_momentum on {label} gives |J M_new^-1 p| = {ce:.2e} (relative): "
                          f"the Gram matrix cached in the state under the old metric is re-used", dict(system=skind, pos=q0.tolist(), new_metric_diagonal=ev.tolist()))
+    # two live systems of one class (different constraint function or ambient metric) applied to ONE state object (comparing formulations from a common start
+    # state): what the first cached in the state must not be served to the second - sampled and projected momenta are cotangent for the system that produced them
+    mets2 = metrics(rng)
+    for skind in ("plain", "gaussian"):
+        pairs = [(("sphere", None), ("sphere+parabolic", None)), (("sphere", None), ("sphere", mets2["dense"])), (("sphere+parabolic", mets2["diagonal"]), ("sphere+parabolic", mets2["dense"]))]
+        for (c1, m1), (c2, m2) in pairs:
+            sys1, sys2 = make_system(skind, csets[c1], m1, False), make_system(skind, csets[c2], m2, False)
+            q0 = on_manifold(csets["sphere+parabolic"][0], csets["sphere+parabolic"][1], rng)     # lies on both manifolds
+            st = ChainState(pos=q0.copy(), mom=None, dir=1)
+            for which, sysm, cn, mv in (("first", sys1, c1, m1), ("second", sys2, c2, m2), ("first again", sys1, c1, m1)):
+                Mi = np.eye(D) if mv is None else (np.diag(1 / mv) if np.ndim(mv) == 1 else np.linalg.inv(mv))
+                Jq = csets[cn][1](q0)
+                st.mom = sysm.sample_momentum(st, rng)
+                ce1 = np.abs(Jq @ Mi @ st.mom).max() / max(1.0, np.abs(Jq).max() * np.abs(st.mom).max())
+                st.mom = rng.standard_normal(D)
+                st.mom = sysm.project_onto_cotangent_space(st.mom, st)
+                ce2 = np.abs(Jq @ Mi @ st.mom).max() / max(1.0, np.abs(Jq).max() * np.abs(st.mom).max())
+                ctx.case(("two-systems", skind, c1, c2, which))
+                ctx.count("search:two_systems_one_state")
+                if not (ce1 <= 1e-10 and ce2 <= 1e-10):
+                    bad += 1
+                    ctx.fail(f"cotangent:two_systems_one_state:{skind}", f"{type(sysm).__name__}: two systems ({c1} / {c2}, metrics {'same' if m1 is m2 else 'different'}) used on one "
+                             f"state object: for the {which} system sampled momentum has |J M^-1 p| = {ce1:.2e}, projected momentum {ce2:.2e} (relative), with ITS constraint and metric",
+                             dict(system=skind, constraints=[c1, c2], pos=q0.tolist()))
+                    break
     # a constraint function with a restricted domain (raises ValueError off it): a failed solve is a ConvergenceError, nothing else
     import math
 
